@@ -4,7 +4,7 @@
    (2) C04, whole-circuit mode: in the symbolic (random-oracle) execution
        the transcript never contains R nor two values differing by R. *)
 From Coq Require Import NArith List Bool Arith Lia ZifyN ZifyNat ZifyBool.
-From Mpc Require Import Base.Label Circuit.Circuit Circuit.Garble Circuit.GGarble.
+From Mpc Require Import Base.Label Circuit.Circuit Circuit.Garble Circuit.GarbleProof Circuit.GGarble.
 Import ListNotations.
 Open Scope N_scope.
 
@@ -557,3 +557,82 @@ Example sym_example :
                        mkGate 4 0 2 INV; mkGate 2 1 5 XNOR; mkGate 5 4 6 AND;
                        mkGate 6 3 7 OR]) [true; false]) = [].
 Proof. vm_compute. reflexivity. Qed.
+
+(* ---------------------------------------------------------------- (3) *)
+(* C04, streaming mode with a session-wide tweak counter: the streamed
+   session is the whole-circuit garbling of the flattened gate list, so the
+   same invariant applies.  [n] = size of the memory (store ++ tmp),
+   the first [ni] addresses are the session inputs. *)
+Theorem sym_stream_safe (perm : nat -> bool) (G ni n : nat) (steps : list scirc) (x : list bool) :
+  (ni <= n)%nat ->
+  wf_gates n 0 (init_asg (mkCircuit n ni 0 [])) (concat (map (sflat G) steps)) = true ->
+  tweaks_of (concat (map (sflat G) steps)) <= 2 ^ 32 ->
+  r_safe Rsym (sym_stream_transcript false perm G ni n steps x).
+Proof.
+  intros Hni Hgs Htw. apply chain_r_safe.
+  unfold sym_stream_transcript, gstream_session, sym_stream_mem.
+  set (gw0 := sym_inputs perm ni ++ repeat w0 (n - ni)).
+  assert (Hin0 : forall w, (w < ni)%nat ->
+            nth w gw0 w0 = mkWire (basis perm w) (lxor (basis perm w) Rsym)).
+  { intros w Hw. unfold gw0. rewrite app_nth1 by (unfold sym_inputs; rewrite map_length, seq_length; exact Hw).
+    unfold sym_inputs.
+    rewrite nth_indep with (d' := (fun i => mkWire (basis perm i) (lxor (basis perm i) Rsym)) 0%nat)
+      by (rewrite map_length, seq_length; exact Hw).
+    rewrite (map_nth (fun i => mkWire (basis perm i) (lxor (basis perm i) Rsym))).
+    rewrite seq_nth by exact Hw. reflexivity. }
+  assert (Hins : forall k, (k <= ni)%nat ->
+            chain (map (fun i => pick (nth i gw0 w0) (nth i x false)) (seq 0 k)) /\
+            forall v, In v (map (fun i => pick (nth i gw0 w0) (nth i x false)) (seq 0 k)) ->
+                      clear_from (N.of_nat k + 2) v).
+  { induction k as [|k IHk]; intros Hk.
+    - cbn. split; [apply chain_nil|intros v []].
+    - destruct (IHk ltac:(lia)) as [Ck Bk].
+      rewrite seq_S, map_app. cbn [map Nat.add].
+      assert (Cv : clear_from (N.of_nat (S k) + 2) (pick (nth k gw0 w0) (nth k x false))).
+      { rewrite Hin0 by lia. destruct (nth k x false); cbn [pick L0 L1];
+          [apply clear_from_lxor; [apply clear_from_basis; lia|apply clear_from_R; lia]
+          |apply clear_from_basis; lia]. }
+      split.
+      + apply chain_snoc with (b := N.of_nat k + 2); [exact Ck|lia| |].
+        * rewrite Hin0 by lia. destruct (nth k x false); cbn [pick L0 L1]; bb.
+        * intros u Hu. apply (Bk u Hu). lia.
+      + intros v Hv. apply in_app_or in Hv. destruct Hv as [Hv|[<-|[]]].
+        * eapply clear_from_mono; [|apply Bk; exact Hv]. lia.
+        * exact Cv. }
+  destruct (Hins ni (Nat.le_refl _)) as [Cin Bin].
+  pose proof (sym_fold perm n 0 (concat (map (sflat G) steps)) gw0
+                (init_asg (mkCircuit n ni 0 [])) 0 ni []
+                (map (fun i => pick (nth i gw0 w0) (nth i x false)) (seq 0 ni))) as SF.
+  destruct (ggates sst sym_sbit (sym_H perm) Rsym gw0 0 (mkSst ni []) (concat (map (sflat G) steps)))
+    as [[[gwf idf] rows] stf].
+  destruct SF as [HI _].
+  - split. { unfold gw0, sym_inputs. rewrite app_length, map_length, seq_length, repeat_length. lia. }
+    split. { unfold init_asg. cbn [ninputs nwires]. rewrite app_length, !repeat_length. lia. }
+    split.
+    { intros w Hw. unfold init_asg in Hw. cbn [ninputs nwires] in Hw.
+      apply nth_init_asg_true in Hw.
+      rewrite (Hin0 w Hw). split; [reflexivity|]. cbn [L0]. apply clear_from_basis. lia. }
+    split; [exact Bin|]. split; [intros k m []|exact Cin].
+  - exact Hgs.
+  - lia.
+  - destruct HI as (_ & _ & _ & _ & _ & CH). exact CH.
+Qed.
+
+(* The tweak counter restarted per streamed circuit (the code before the fix)
+   is NOT safe: two AND gates at the same position of two streamed circuits
+   that share their first input wire transmit rows differing by R when the
+   permute bits of their second inputs differ. *)
+Definition reset_witness_steps : list scirc :=
+  [ mkSC [mkGate 0 1 2 AND] 3 [0; 1]%nat [3]%nat;
+    mkSC [mkGate 0 1 2 AND] 3 [0; 2]%nat [4]%nat ].
+Definition reset_witness_perm (n : nat) : bool := Nat.eqb n 1.
+
+Lemma stream_tweak_reset_refuted :
+  exists perm G ni n steps x,
+    wf_gates n 0 (init_asg (mkCircuit n ni 0 [])) (concat (map (sflat G) steps)) = true /\
+    r_pairs Rsym (sym_stream_transcript true perm G ni n steps x) <> [] /\
+    r_pairs Rsym (sym_stream_transcript false perm G ni n steps x) = [].
+Proof.
+  exists reset_witness_perm, 5%nat, 3%nat, 8%nat, reset_witness_steps, [false; false; false].
+  vm_compute. repeat split; discriminate.
+Qed.
